@@ -19,7 +19,10 @@ Oracle : (independent of the model) payloads tagged with their circuit leave onl
          only the first sender gets a created, and the genuine circuit still carries data both ways; after a
          re-extend to another exit, the slow first exit's stale created (cache still pending), a created with an
          unknown identifier and duplicates of the genuine created leave the relay entries of the established circuit
-         untouched (object identity, keys, next hop) and its data still leaves through its own exit.
+         untouched (object identity, keys, next hop) and its data still leaves through its own exit; with several
+         circuits of different originators at ONE exit node and the opening of each exit socket's transports delayed
+         and interleaved with the first packets, every datagram leaving a (fake) transport belongs to the circuit
+         owning that transport and every outside reply reaches only that circuit's originator, under its id.
 """
 from __future__ import annotations
 
@@ -30,6 +33,7 @@ import os
 
 from tools.checks import c04
 from tools.vlib import onionlock, repoenv
+from tools.vlib.tunnelnet import FakeTransport as tunnelnet_FakeTransport
 from tools.vlib.coqrun import zl
 from tools.vlib.onionlock import NULL, addr_coq, zlist
 from tools.vlib.vtime import VLoop, patched_time
@@ -93,6 +97,37 @@ class CNet(onionlock.LockNet):
             setattr(ov, attr, w)
         ov.cancel_pending_task("do_ping")
         return ov
+
+    async def start(self):
+        await super().start()
+        # exit sockets are the real TunnelExitSocket objects; only the OS transport is faked - and its opening can be
+        # held back per socket by a scenario (hold_transports), as a slow bind / loaded event loop would
+        self.hold_transports = False
+        self.pending_opens = []        # (exit socket, future) of transports waiting to be opened
+        tnet = self
+
+        async def gated_open(proto):
+            owner = getattr(proto.received_cb, "__self__", None)
+            if tnet.hold_transports:
+                fut = asyncio.get_event_loop().create_future()
+                tnet.pending_opens.append((owner, fut))
+                await fut
+            return tunnelnet_FakeTransport(tnet, owner)
+        self._es.TunnelProtocol.open = gated_open
+
+    async def release_transports(self, owner=None):
+        """let the transports of one exit socket (or of all) open now; returns how many were opened"""
+        n = 0
+        for _ in range(4):             # ipv4, then ipv6, each behind its own open()
+            todo = [(o, f) for (o, f) in self.pending_opens if (owner is None or o is owner) and not f.done()]
+            if not todo:
+                break
+            for o, f in todo:
+                f.set_result(None)
+                n += 1
+            self.pending_opens = [(o, f) for (o, f) in self.pending_opens if not f.done()]
+            await self.settle_tasks()
+        return n
 
     def peer_coq(self, p):
         return "(mkPeer %d %s)" % (self.reg.pk(p.public_key.key_to_bin()), addr_coq(p.address))
@@ -680,6 +715,96 @@ async def stale_created(ctx, tn, loop, book, r):
     return n
 
 
+async def shared_exit(ctx, tn, loop, book, r):
+    """several circuits of different originators ending at the SAME exit node; their first outbound packets interleaved
+    with the (delayed) opening of each exit socket's transports; then a reply from outside to every datagram that left"""
+    n_rounds = 0
+    exit_node = next(ov for nm, ov in tn.nodes.items() if nm.startswith("exit"))
+    originators = [tn.origin] + [ov for nm, ov in tn.nodes.items() if nm.startswith("relay")]
+    for rnd_i in range(10 if ctx.quick else 60):
+        circuits = []        # (originator, circuit, exit socket)
+        for k in range(r.choice([2, 3])):
+            o = originators[k % len(originators)] if rnd_i % 2 == 0 else r.choice(originators)
+            c = await tn.build_circuit(r.choice([1, 2]), origin=o)
+            if c is None:
+                continue
+            # follow the circuit to its exit socket
+            addr, cid = tuple(c.hop.address), c.circuit_id
+            for _ in range(4):
+                nd = tn.by_addr[addr]
+                if cid in nd.relay_from_to:
+                    rr = nd.relay_from_to[cid]
+                    addr, cid = tuple(rr.hop.address), rr.circuit_id
+                else:
+                    break
+            es = nd.exit_sockets.get(cid)
+            if nd is exit_node and es is not None:
+                circuits.append((o, c, es))
+        if len(circuits) < 2:
+            continue
+        by_cid = {c.circuit_id: (o, c, es) for o, c, es in circuits}
+        meta = {"kind": "shared-exit", "round": rnd_i, "circuits": len(circuits)}
+        tn.hold_transports = True
+        plan = []
+        for o, c, es in circuits:
+            plan += [("send", c.circuit_id)] * r.choice([1, 2, 3]) + [("open", c.circuit_id)]
+        r.shuffle(plan)
+        sent, seq = {}, 0
+        mark_out, mark_tr = len(tn.exits_out), len(tn.trace)
+        evs = []
+        for what, cid in plan:
+            o, c, es = by_cid[cid]
+            if what == "send":
+                seq += 1
+                data = tagged(r, c, seq)
+                dest = ("198.51.100.%d" % (1 + seq % 200), 3000 + seq)
+                sent[data] = (cid, dest)
+                o.send_data(c.hop.address, c.circuit_id, dest, NULL, data)
+                await tn.drain_c(evs)
+            else:
+                await tn.release_transports(es)
+        tn.hold_transports = False
+        await tn.release_transports(None)
+        await tn.drain_c(evs)
+        book.add_all(evs, meta)
+        outs = tn.exits_out[mark_out:]
+        n_rounds += 1
+        ctx.count(("shared-exit", rnd_i, tuple(w for w, _ in plan)), nontrivial=True)
+        # every datagram leaving a transport belongs to the circuit owning that transport
+        ok = True
+        for owner, data, addr in outs:
+            cid = sent.get(data, (None, None))[0]
+            want = by_cid[cid][2] if cid in by_cid else None
+            if want is not owner:
+                ok = False
+                ctx.violation("exit-queue/packet-left-through-other-circuit",
+                              "a packet that entered circuit %s left through the transport of exit socket %s (%d circuits at one exit, schedule %s)" % (
+                                  cid, getattr(owner, "circuit_id", None), len(circuits), [w[0] for w in plan]), meta)
+                break
+        if ok and sorted(d for _, d, _ in outs) != sorted(sent):
+            ctx.violation("exit-queue/packets-lost-or-duplicated", "%d packets sent into %d circuits at one exit, %d left the exit" % (
+                len(sent), len(circuits), len(outs)), meta)
+        # the outside answers every datagram on the transport it came from: the reply reaches only that circuit's originator
+        evs = []
+        replies = {}
+        for owner, data, addr in outs:
+            reply = b"d" + b"REPLY" + data[1:]
+            replies[reply] = owner
+            owner.datagram_received_ipv4(reply, addr)
+        await tn.drain_c(evs)
+        book.add_all(evs, dict(meta, what="replies"))
+        got = [(e["node"], rec[1], rec[3]) for e in evs for rec in e["records"] if rec[0] == "raw"]
+        for node, cid, data in got:
+            tag_cid = int(data[7:17]) if data[:7] == b"dREPLYC" and data[7:17].isdigit() else None
+            if tag_cid not in by_cid or by_cid[tag_cid][0]._verif_name != node or cid != tag_cid:
+                ctx.violation("exit-queue/reply-to-other-circuit", "the reply to a packet of circuit %s was delivered to %s under circuit %s" % (
+                    tag_cid, node, cid), meta)
+                break
+        if ok and len(got) != len(outs):
+            ctx.violation("exit-queue/reply-lost", "%d replies injected at the exit's transports, %d reached an originator" % (len(outs), len(got)), meta)
+    return n_rounds
+
+
 async def create_in_use(ctx, tn, loop, book, r):
     """a create under an id that is live in some table of the receiver"""
     from ipv8.messaging.anonymization.payload import CreatePayload
@@ -876,6 +1001,16 @@ async def _run(ctx, loop):
     finally:
         await tn.stop()
     evaluate(ctx, tn, book, "stale")
+    # ---- 2d: several circuits at one exit node, first packets vs opening of the transports
+    tn = CNet(n_relays=2, n_exits=1, exit_flags=(2, 4, 8))
+    await tn.start()
+    book = Book(ctx)
+    try:
+        stats["shared_exit_rounds"] = await shared_exit(ctx, tn, loop, book, r)
+    finally:
+        await tn.release_transports(None)
+        await tn.stop()
+    evaluate(ctx, tn, book, "sharedexit")
     # ---- 3: destroy matrix
     tn = CNet(n_relays=3, n_exits=2, exit_flags=(2, 4, 8))
     await tn.start()
@@ -934,6 +1069,11 @@ async def replay_case(case, loop):
             await create_race(ctx, tn, loop, book, r)
         elif kind == "stale-created":
             await stale_created(ctx, tn, loop, book, r)
+        elif kind == "shared-exit":
+            await tn.stop()
+            tn = CNet(n_relays=2, n_exits=1, exit_flags=(2, 4, 8))
+            await tn.start()
+            await shared_exit(ctx, tn, loop, book, r)
         elif kind == "destroy":
             await destroy_matrix(ctx, tn, loop, book, r)
         else:
@@ -994,6 +1134,7 @@ def run(ctx):
                             "tagged data both ways on all circuits at once with deliveries in random order (thorough: 6 networks, 4-6 circuits, 300 rounds); "
                             "forged cells (unknown id / garbage / other circuit's body / outsider keys) at every entry of every circuit; creates under live "
                             "relay-in / relay-out / exit / own-circuit ids within and after the 60 s cache; same-id creates dispatched back-to-back with a genuine create "
-                            "(first hop / extend hop x both orders); re-extended circuit + stale / unknown / duplicate created; destroy matrix {own, other, unknown id} x {adjacent, "
+                            "(first hop / extend hop x both orders); re-extended circuit + stale / unknown / duplicate created; 10 (thorough 60) rounds of 2-3 circuits of different originators at one "
+                            "exit with delayed transport opening interleaved with first packets + outside replies; destroy matrix {own, other, unknown id} x {adjacent, "
                             "other member, outsider} x {signature ok, bad, key substituted} x {relay-in, relay-out, exit, circuit} + the legitimate destroys; "
                             "every delivered datagram / timer advance is one lockstep case; distinct = distinct scenario parameters")
